@@ -15,12 +15,13 @@ Next == i <= Len(TLog) /\ i' = i + 1
 
 Plan == Cells(LawName)
 Seen == {TLog[k].cell : k \in 1..Len(TLog)}
+HasDuplicates == Cardinality(Seen) # Len(TLog)     \* duplicates are searched only if there are any
 NUnresolved == Cardinality({k \in 1..Len(TLog) : ~TLog[k].resolved})
 
 Verdict(r, idx) ==
   IF r.law # LawName THEN LawName \o ":wrong-law-cell"
   ELSE IF r.cell \notin Plan THEN LawName \o ":unplanned-cell"
-  ELSE IF \E j \in 1..(idx - 1) : TLog[j].cell = r.cell THEN LawName \o ":duplicate-cell"
+  ELSE IF HasDuplicates /\ \E j \in 1..(idx - 1) : TLog[j].cell = r.cell THEN LawName \o ":duplicate-cell"
   ELSE IF ~r.resolved THEN "ok"
   ELSE LET q == Req(LawName, r.cell)
        IN IF Accept(q, r) THEN "ok"
